@@ -208,7 +208,7 @@ def r4_predicate(ctx):
             r.missing("langid::" + name)
             continue
         t = flatp(show(fn.body))
-        if t == w:
+        if same(t, w):
             r.inst(name, w)
         else:
             r.viol("R4:" + name, "is `%s`, expected `%s`" % (t, w), file=fn.file, line=fn.line)
